@@ -13,58 +13,6 @@ import (
 // vx.Stub, engine only; the native replay runs the real primitives), so that what is decided is
 // the composition logic: operand order, lengths, masks, clamping.
 
-const vxPkgPath = "github.com/NethermindEth/juno/core/trie"
-
-func vxSpecRsh(b, x *BitArray, n uint8) *BitArray {
-	lx, xv := uint(x.len), vxVal(x)
-	if lx == 0 {
-		b.len, b.words = x.len, x.words
-		return b
-	}
-	if uint(n) >= lx {
-		b.len, b.words = 0, [4]uint64{}
-		return b
-	}
-	b.len, b.words = uint8(lx-uint(n)), [4]uint64(xv.Shr(uint(n)))
-	return b
-}
-
-func vxSpecLsh(b, x *BitArray, n uint8) *BitArray {
-	lx, xv := uint(x.len), vxVal(x)
-	if lx == 0 || n == 0 {
-		b.len, b.words = x.len, x.words
-		return b
-	}
-	want := lx + uint(n)
-	if want > 255 {
-		want = 255
-	}
-	b.len, b.words = uint8(want), [4]uint64(xv.Shl(uint(n)).And(vx.W256Mask(want)))
-	return b
-}
-
-func vxSpecLSBsFromLSB(b, x *BitArray, n uint8) *BitArray {
-	lx, xv := uint(x.len), vxVal(x)
-	if uint(n) >= lx {
-		b.len, b.words = x.len, x.words
-		return b
-	}
-	b.len, b.words = n, [4]uint64(xv.And(vx.W256Mask(uint(n))))
-	return b
-}
-
-func vxSpecOnes(b *BitArray, length uint8) *BitArray {
-	b.len, b.words = length, [4]uint64(vx.W256Mask(uint(length)))
-	return b
-}
-
-func vxStubPrimitives(pkg string) {
-	vx.Stub("(*"+pkg+".BitArray).Rsh", vxSpecRsh)
-	vx.Stub("(*"+pkg+".BitArray).Lsh", vxSpecLsh)
-	vx.Stub("(*"+pkg+".BitArray).LSBsFromLSB", vxSpecLSBsFromLSB)
-	vx.Stub("(*"+pkg+".BitArray).Ones", vxSpecOnes)
-}
-
 func VxC01BitArrayEqualMSBs() {
 	vxStubPrimitives(vxPkgPath)
 	x, lx, xv := vxBA("x")
